@@ -129,6 +129,9 @@ type verifValidator struct {
 	Calls  []string // push pull restart
 	Result datatransfer.ValidationResult
 	Err    error
+	// Hook, if set, runs inside every validation callback (re-entrant stimuli: what the
+	// application or the network does while the validator is deciding)
+	Hook func()
 }
 
 func (v *verifValidator) ValidatePush(chid datatransfer.ChannelID, sender peer.ID, voucher datamodel.Node, baseCid cid.Cid, selector datamodel.Node) (datatransfer.ValidationResult, error) {
@@ -141,6 +144,9 @@ func (v *verifValidator) ValidatePull(chid datatransfer.ChannelID, receiver peer
 }
 func (v *verifValidator) ValidateRestart(chid datatransfer.ChannelID, channel datatransfer.ChannelState) (datatransfer.ValidationResult, error) {
 	v.Calls = append(v.Calls, "restart")
+	if v.Hook != nil {
+		v.Hook()
+	}
 	return v.Result, v.Err
 }
 
